@@ -299,6 +299,12 @@ fn parse_aliases(into: &[String], from: &[String]) -> Result<(Vec<Transformation
     for (line, alias) in into.iter().enumerate() {
         into_parsed.extend(AliasParser::new(AliasKind::Deromaniser, AliasLexer::new(AliasKind::Deromaniser, &alias.chars().collect::<Vec<_>>(), line).get_line()?, line).parse()?);
     }
+    // words are normalised before they are read, so the strings they are compared with must be as well (`ã` typed as one character)
+    for transformation in into_parsed.iter_mut() {
+        if let alias::parser::AliasParseElement::Replacement(string, _) = &mut transformation.input.kind {
+            *string = normalise(string);
+        }
+    }
     
     let mut from_parsed = Vec::with_capacity(from.len());
     for (line, alias) in from.iter().enumerate() {
